@@ -33,7 +33,28 @@ def oracle_noop(rng, desc, out):
     """resolve on satisfied constraints / optimize on optimal objectives: no change, no draw, any order, repeated."""
     try:
         p = solvercase.build_problem(desc)
-        p.resolve_constraints()
+        # already fine by an independent reading of every constraint's documentation (not by the code's own evaluation)?
+        seq0 = desc["sequence"].upper()
+        fine = False
+        if p.sequence == seq0 and not desc.get("reuse_after") and not desc.get("construct_first"):
+            import oracle_doc
+            docs = [oracle_doc.doc(c, seq0, seq0) for c in desc["constraints"]]
+            fine = all(d is not None and d["score"] >= 0 for d in docs)
+        state0 = np.random.get_state()
+        try:
+            p.resolve_constraints()
+        except Exception as e:
+            if fine:
+                out.append(dict(kind="noop-resolve-raised", input=dict(desc=desc), detail="every constraint holds on %s by its documentation, yet %s" % (seq0, repr(e)[:150])))
+                return 1
+            raise
+        if fine and (p.sequence != seq0 or not rng_state_equal(state0, np.random.get_state())):
+            out.append(dict(kind="resolve-not-noop", input=dict(desc=desc),
+                            detail="every constraint holds on %s by its documentation, yet resolve_constraints() gave %s / drew random numbers" % (seq0, p.sequence)))
+            return 1
+        if not desc.get("derived") and rng.random() < 0.35:
+            # the solved sequence as the input of a fresh problem with the same specifications: already fine
+            return oracle_noop(rng, dict(desc, sequence=p.sequence, derived=True), out)
         if rng.random() < 0.3:
             # the solved sequence is given to a new problem whose specification objects were used before on another
             # sequence: every constraint passes on it (decided on the fresh objects above), so nothing may happen
@@ -188,8 +209,19 @@ def search(ctx, budget, hints):
     out = []
     n = 0
     tstats = {}
-    for _ in range(120 * budget):
+    for i_ in range(120 * budget):
         d_ = problems.rand_solver_problem(rng, objectives=True)
+        if i_ % 10 == 9:
+            # GC windows longer than their region / the sequence: no window exists, whatever the composition
+            n_ = rng.randint(6, 30)
+            s_ = "".join(rng.choice(rng.choice(["AT", "GC", "ATGC"])) for _ in range(n_))
+            w_ = n_ + rng.randint(1, 25)
+            c_ = dict(kind="gcwin", mini=rng.choice([0.25, 0.4]), maxi=rng.choice([0.6, 0.75]), window=w_, location=None)
+            if rng.random() < 0.5:
+                a_ = rng.randint(0, n_ - 3)
+                c_["location"] = [a_, rng.randint(a_ + 2, n_), rng.choice([1, 0])]
+                c_["window"] = c_["location"][1] - a_ + rng.randint(1, 10)
+            d_ = dict(sequence=s_, constraints=[c_], objectives=[], settings={}, np_seed=rng.randint(0, 10 ** 6))
         n += vlib.limited(lambda: oracle_noop(rng, d_, out), 10, 0, tstats)
     for _ in range(600 * budget):
         n += vlib.limited(lambda: oracle_constructor(rng, out), 10, 0, tstats)
